@@ -22,8 +22,9 @@ LEVELS = {
             "session_seal_log_nodup (fresh rotated-in keys necessary, witness), session_halves_disjoint, counter_never_wraps.",
             "Start values are arbitrary in the model ('unpredictable' is a property of the OS RNG, not provable); bounds: fewer than 2^95 - 2^48 seals per key."),
     "C05": ("Proof. Two-party system with an adversarial network (any bytes, any order, any number of times): attempt_agreement (both completed => partners, same cipher and key material, opposite "
-            "halves and roles, each other's payload), success_at_most_once, role_switch_exclusive; key binding initiator_success_binds / responder_success_binds; lockstep_completes (loss-free run).",
-            "Liveness after healing (mutually connected within peer timeout + retry horizon) is decided by the node suite and monitor, not by a theorem: partial. Ideal signatures / AEAD as named hypotheses."),
+            "halves and roles, each other's payload), success_at_most_once, role_switch_exclusive; key binding initiator_success_binds / responder_success_binds; lockstep_completes; "
+            "recovery: reachable_classes, reliable_rounds_complete (two reliable rounds complete the pair from every reachable state but one dead end, which is a theorem too), give_up_is_bounded.",
+            "Partial: the node-level time bound across re-dials (peer timeout + retry horizon) is decided by the healing / stale-responder / late-duplicate scenarios and the monitor. Ideal signatures / AEAD as named hypotheses."),
     "C06": ("Proof. select_spec / select_symm / selectRef_perm / plain_iff_both / fail_iff_none_common over the advertised lists; from the configuration: parse_plain_iff, parse_perm, "
             "plain_position_irrelevant, outcome_depends_on_sets_only (order, multiplicity, spelling, initiator irrelevant), tampered_list_fails (the list lies in the signed region).",
             "A cipher configured twice is measured twice and can break symmetry (witness; the property quantifies over sets). Names are modelled in ASCII (Rust's to_uppercase is Unicode-aware)."),
@@ -49,8 +50,10 @@ LEVELS = {
             "no_learning_unless_flag, learning_records_source; node level: see the theorem list of the check.",
             "An announcement that drops a claim of P also flushes addresses learned from P (theorem announce_drop_flushes_learned; the property text does not mention it)."),
     "C14": ("Proof. self_detect and self_handshake_in_history (a handshake carrying the node's own salted id never adds a peer, all histories), own_addresses_adopted_not_dialled, "
-            "own_never_dialled_*, dialled_only_foreign; abstract mesh_closure (log2 n exchange rounds complete any connected graph).",
-            "That the real timing realises the abstract exchange step (NAT windows, 20-peer subset) is validated on all graphs up to 4-5 nodes by the suite: partial."),
+            "own_never_dialled_*, dialled_only_foreign; the exchange step at node level: announcement_lists_every_peer, listed_stranger_is_dialled, listed_known_not_dialled, "
+            "exchange_realises_step (+ handshake completion from C05); mesh_closure / bounded_rounds (log2 n rounds complete any connected graph if every round realises Graph.step).",
+            "Partial: that every round of the real timing realises the step (announcement interval, handshake inside the round, NAT filter windows, the 20-peer subset) is the named hypothesis "
+            "RealisesStep, validated by the suite on all graphs up to 4-5 nodes, not proved."),
     "C15": ("Proof. interval_safe over the expression regenerated from the source (every peer timeout, keepalive and advertised set), housekeep_schedules_safe, announce_reaches_every_peer, "
             "refresh_sets_expiry, timed argument healthy_never_expires (both housekeeping orders), silent_removed, expired_peer_redialled, backoff_bounded, reconnect_forever; guards "
             "peerExpired / announceDue / backoff* pinned at their boundaries.",
